@@ -54,6 +54,9 @@ type procResult struct {
 	mixed        int64 // dev renders that really contain bytes of two versions
 	devRenders   int64
 	samples      []any
+	// handler phase
+	hReq, hFail, hStream, hGoHTML, hOverlap int64
+	spans                                   [][2]int64
 }
 
 type raceReport struct {
@@ -168,6 +171,14 @@ func monotoneMix(got []byte, refs [][]byte) (ok, mixed bool) {
 //	           gets == puts and nothing live at quiescence
 //	race       any "WARNING: DATA RACE" block in the GORACE log
 //	dev-mix    see monotoneMix
+//	handler    requests through templ.Handler / templ.ToGoHTML (the templ package's own
+//	           bytes.Buffer pool): a successful request has the configured status (or 200),
+//	           the configured Content-Type and exactly the sequential reference D as body; a
+//	           failed BUFFERED request carries exactly the error path's response (default:
+//	           500, text/plain, the fixed message; with WithErrorHandler: what that handler
+//	           writes, with the configured Content-Type) and no document byte; a failed
+//	           STREAMED request's body is a prefix of D followed by the error path's body;
+//	           ToGoHTML returns D, or the sentinel error and an empty string
 func judgeProc(c *core.Ctx, name string, dev bool, jobs []rcorpus.Job, run corpus.RunResult, raceLog string, timeout time.Duration) *procResult {
 	res := &procResult{name: name}
 	bad := func(rule, format string, a ...any) {
@@ -206,6 +217,30 @@ func judgeProc(c *core.Ctx, name string, dev bool, jobs []rcorpus.Job, run corpu
 			}
 		case "concdone":
 			res.rewrites += ev.K
+		case "hr":
+			c.Eval(1)
+			res.hReq++
+			res.spans = append(res.spans, [2]int64{ev.T0, ev.T1})
+			ref := refs[ev.Key][0]
+			if ref == nil || ev.Out == nil {
+				res.inconclusive = append(res.inconclusive, name+": request without reference: "+ev.Key)
+				return
+			}
+			for _, f := range judgeRequest(ev, ref) {
+				bad("handler-"+f[0], "phase %s goroutine %d request %d component %s options %s fail=%q: %s", ev.Tag, ev.G, ev.I, ev.Key, ev.Opt, ev.Fail, f[1])
+			}
+			if ev.Fail != "" {
+				res.hFail++
+			}
+			if strings.HasPrefix(ev.Opt, "stream") {
+				res.hStream++
+			} else if strings.HasPrefix(ev.Opt, "gohtml") {
+				res.hGoHTML++
+			}
+			if len(res.samples) < 1 && ev.Fail != "" && strings.Contains(ev.Opt, "eh") && strings.HasPrefix(ev.Opt, "buf") {
+				res.samples = append(res.samples, map[string]any{"process": name, "phase": ev.Tag, "goroutine": ev.G, "request": ev.I, "component": ev.Key,
+					"options": ev.Opt, "failing_site": ev.Fail, "status": ev.Code, "content_type": ev.CT, "body": string(ev.Out.Bytes())})
+			}
 		case "cr":
 			res.renders++
 			c.Eval(1)
@@ -277,6 +312,8 @@ func judgeProc(c *core.Ctx, name string, dev bool, jobs []rcorpus.Job, run corpu
 	case !ended:
 		res.inconclusive = append(res.inconclusive, fmt.Sprintf("%s: driver ended early (exit %d): %s", name, run.ExitCode, corpus.Tail(stderr, 400)))
 	}
+	res.hOverlap = overlappingPairs(res.spans)
+	res.spans = nil
 	res.races, res.raceBlocks = parseRaces(raceLog + "\n" + stderr)
 	for _, r := range res.races {
 		text := r.text
@@ -293,6 +330,97 @@ func errText(e *rcorpus.ErrFacts) string {
 		return "nil"
 	}
 	return fmt.Sprintf("error{%q injected:%v short:%v canceled:%v sentinel:%v}", e.Msg, e.IsInjected, e.IsShort, e.IsCanceled, e.IsSentinel)
+}
+
+const (
+	defaultErrBody = "templ: failed to render template\n"
+	ehErrBody      = "EH: render failed, sentinel=true\n"
+)
+
+// judgeRequest applies the handler rules to one request; returns (rule, detail) pairs.
+func judgeRequest(ev *rcorpus.Event, ref *rcorpus.Ref) (fs [][2]string) {
+	add := func(rule, format string, a ...any) { fs = append(fs, [2]string{rule, fmt.Sprintf(format, a...)}) }
+	opt := map[string]bool{}
+	wantCode := 200
+	for _, o := range strings.Split(ev.Opt, ",") {
+		opt[o] = true
+		if strings.HasPrefix(o, "s") && len(o) == 4 {
+			fmt.Sscanf(o[1:], "%d", &wantCode)
+		}
+	}
+	wantCT := "text/html; charset=utf-8"
+	if opt["ct"] {
+		wantCT = "text/x-verif; charset=utf-8"
+	}
+	o := ev.Out
+	if o.Err != nil && o.Err.Panic {
+		add("panic", "the request panicked: %s", o.Err.Msg)
+		return fs
+	}
+	failed := ev.Fail != ""
+	errBody, errCode, errCT := defaultErrBody, 500, "text/plain; charset=utf-8"
+	if opt["eh"] {
+		errBody, errCode, errCT = ehErrBody, 418, wantCT
+	}
+	switch {
+	case opt["gohtml"]:
+		if !failed && (o.Err != nil || !ref.IsWhole(o)) {
+			add("gohtml", "ToGoHTML returned err=%s and %d bytes (hash %s); reference has %d bytes (hash %x)", errText(o.Err), o.N, o.H, ref.L(), ref.Prefix[ref.L()])
+		}
+		if failed && (o.Err == nil || !o.Err.IsSentinel || o.N != 0) {
+			add("gohtml-fail", "ToGoHTML of a failing component returned err=%s and %d bytes", errText(o.Err), o.N)
+		}
+	case !failed:
+		if !ref.IsWhole(o) {
+			add("body", "response body has %d bytes (hash %s); sequential reference has %d bytes (hash %x)", o.N, o.H, ref.L(), ref.Prefix[ref.L()])
+		}
+		if ev.Code != wantCode || ev.CT != wantCT {
+			add("head", "status %d Content-Type %q; configured %d %q", ev.Code, ev.CT, wantCode, wantCT)
+		}
+	case opt["buf"]:
+		if body := string(o.Bytes()); body != errBody {
+			add("error-body", "failed buffered request answered %q; the error path alone writes %q", body, errBody)
+		}
+		if ev.Code != errCode || ev.CT != errCT {
+			add("error-head", "failed buffered request: status %d Content-Type %q; the error path sets %d %q", ev.Code, ev.CT, errCode, errCT)
+		}
+	default: // failed streamed request: partial document, then the error path's body
+		body := o.Bytes()
+		m := len(body) - len(errBody)
+		if m < 0 || string(body[m:]) != errBody || m > ref.L() || string(body[:m]) != string(ref.D[:m]) {
+			add("stream-body", "failed streamed request answered %q: not a prefix of the document followed by %q", body, errBody)
+		}
+	}
+	return fs
+}
+
+// overlappingPairs counts pairs of requests whose [start, end] intervals
+// intersect (evidence only; wall-clock stamps never decide a verdict).
+func overlappingPairs(spans [][2]int64) int64 {
+	type pt struct {
+		t   int64
+		end bool
+	}
+	pts := make([]pt, 0, 2*len(spans))
+	for _, s := range spans {
+		pts = append(pts, pt{s[0], false}, pt{s[1], true})
+	}
+	sort.Slice(pts, func(i, j int) bool {
+		if pts[i].t != pts[j].t {
+			return pts[i].t < pts[j].t
+		}
+		return !pts[i].end && pts[j].end
+	})
+	var active, pairs int64
+	for _, p := range pts {
+		if p.end {
+			active--
+		} else {
+			pairs += active
+			active++
+		}
+	}
+	return pairs
 }
 
 func readRaceLogs(prefix string) string {
@@ -420,6 +548,7 @@ func privateRoot(devRoot, name string) string {
 func Run(c *core.Ctx) {
 	c.Rule = "cases = concurrent phases: G goroutines × M renders over the shared template set (hand-written components with package-level once handles, css classes and script values + seeded random Interp trees), " +
 		"odd goroutines render into faulting writers (hard/short/zero at a random offset, failing expression), every 4th goroutine's writer yields per Write; DefaultBufferSize 8/16/64; with and without the H2 hook installed; " +
+		"handler phase: G goroutines × M requests through templ.Handler (buffered, streamed; WithStatus / WithContentType / WithErrorHandler; recorders whose Write yields or naps) and templ.ToGoHTML, a third failing at a failable site; " +
 		"development mode: same, text files from the real FSEventHandler, plus a goroutine replacing dev.templ's text file (4 rewrites per phase). " +
 		"non-trivial = phases in which the pool hook saw a buffer released by one goroutine and handed to another, and dev-mode renders that contain bytes of two text-file versions."
 	c.Assume("the Go race detector reports only races it observes in these executions (no false positives, many false negatives)")
@@ -470,6 +599,17 @@ func Run(c *core.Ctx) {
 				procs = append(procs, proc{name: name, jobs: jobs})
 			}
 		}
+		// handler phase: templ.Handler (buffered / streamed) and templ.ToGoHTML, i.e. the
+		// templ package's own bytes.Buffer pool, with a third of the requests failing
+		for _, s := range []shape{{16, 1200 * scale, 64}, {64, 300 * scale, 4096}} {
+			name := fmt.Sprintf("handler-g%d", s.g)
+			jobs := []rcorpus.Job{{Op: "config", BufSize: s.buf, Gid: true}}
+			for ph := 0; ph < 2; ph++ {
+				jobs = append(jobs, rcorpus.Job{Op: "hconc", Tag: fmt.Sprintf("%s/ph%d", name, ph), G: s.g, M: s.m / 2, Seed: seeds.Int63n(1 << 40),
+					Comps: comps, Hook: ph == 0, Gid: true})
+			}
+			procs = append(procs, proc{name: name, jobs: jobs})
+		}
 		// development mode
 		txt, versions := devSetup(c, b, devRoot)
 		var devComps []rcorpus.Comp
@@ -516,6 +656,11 @@ func Run(c *core.Ctx) {
 	var hookPhases, movedPhases int
 	for _, r := range results {
 		c.Add("renders", int(r.renders))
+		c.Add("handler_requests", int(r.hReq))
+		c.Add("handler_requests_failing_at_a_site", int(r.hFail))
+		c.Add("handler_requests_streamed", int(r.hStream))
+		c.Add("handler_phase_ToGoHTML_calls", int(r.hGoHTML))
+		c.Add("handler_overlapping_request_pairs", int(r.hOverlap))
 		c.Add("renders_into_well_behaved_writers_equal_to_reference", int(r.okRenders))
 		c.Add("renders_with_injected_fault", int(r.faulted))
 		c.Add("race_report_blocks", r.raceBlocks)
@@ -551,6 +696,9 @@ func Run(c *core.Ctx) {
 	c.Set("distinct_interleaving_signatures_first_64_pool_events", len(sigs))
 	if c.ReplayFile == "" && (hookPhases == 0 || movedPhases == 0) {
 		c.Inconclusive("hook H2 never saw a buffer move between goroutines: pool sharing was not exercised")
+	}
+	if c.ReplayFile == "" && (c.Get("handler_requests_failing_at_a_site") == 0 || c.Get("handler_overlapping_request_pairs") == 0) {
+		c.Inconclusive("handler phase: no failing request or no overlapping requests were observed")
 	}
 	if c.ReplayFile == "" && c.Get("dev_mode_text_file_rewrites_during_phases") == 0 {
 		c.Inconclusive("no text file was rewritten while renders were running")
